@@ -26,7 +26,7 @@ theorem desc_memo (g : Graph N) (d : N → Bool) (m : M) (hd : DownClosed g d m)
   | refl n => exact hn
   | step n c x hc _ ih => exact ih (hd n hn c hc)
 
-theorem walk_idle (g : Graph N) (d : N → Bool) (f : Nat → N → List R → Except E R) (f0 : N → List R → Except E R)
+theorem walk_idle (g : Graph N) (d : N → Bool) (f : List N → N → List R → Except E R) (f0 : N → List R → Except E R)
     (hf : Refines f f0) (inval shortcut : Bool) (fuel : Nat) (n : N) (s : WState M N) (hi : Idle g d f0 s) :
     Idle g d f0 (walk g d f inval shortcut fuel n s).2 :=
   let h := walk_post g d f f0 hf inval shortcut fuel n s hi.closed hi.stack
